@@ -261,6 +261,16 @@ func (r *Run) Violation(key, desc string, replay any) {
 	}
 }
 
+// alreadyReported tells whether a key was already reported (violation or known finding) in this run.
+func (r *Run) alreadyReported(key string) bool {
+	r.mu.Lock()
+	defer r.mu.Unlock()
+	if _, ok := r.viol[key]; ok {
+		return true
+	}
+	return r.knownHit[key] > 0
+}
+
 func (r *Run) Finish() {
 	r.mu.Lock()
 	defer r.mu.Unlock()
